@@ -419,6 +419,31 @@ pub fn check(case: &Case, obs: &mut Obs) {
                 true,
                 None,
             );
+            // ideal-gas parts of the caloric getters (h_ig and u_ig depend on T only)
+            {
+                let ig = Contributions::IdealGas;
+                let cv_ig = sf.molar_isochoric_heat_capacity(ig).to_reduced();
+                c.check(
+                    "cv(IdealGas) = du_ig/dT",
+                    cv_ig,
+                    cv_ig.abs() + 1.0,
+                    |x| Some(mkf(x, v0, &n0)?.molar_internal_energy(ig).to_reduced()),
+                    t0,
+                    RTOL,
+                    false,
+                    None,
+                );
+                c.check(
+                    "cp(IdealGas) = dh_ig/dT",
+                    sf.molar_isobaric_heat_capacity(ig).to_reduced(),
+                    cv_ig.abs() + 1.0,
+                    |x| Some(mkf(x, v0, &n0)?.molar_enthalpy(ig).to_reduced()),
+                    t0,
+                    RTOL,
+                    false,
+                    None,
+                );
+            }
             if stable {
                 c.obs.class("p-path");
                 let moles = Moles::from_reduced(n0.clone());
